@@ -37,6 +37,16 @@ def norm_construct(s: str) -> str:
     return s[:300]
 
 
+LOOKUP_NAMES = ("KeyError", "IndexError", "IndexError|KeyError")
+
+
+def _lookup_aliases(key: str) -> List[str]:
+    m = re.match(r"^(.*\.escape:)(IndexError\|KeyError|KeyError|IndexError)(\|.*)$", key)
+    if not m:
+        return []
+    return [m.group(1) + n + m.group(3) for n in LOOKUP_NAMES if n != m.group(2)]
+
+
 def load_known() -> Dict[str, List[Dict[str, str]]]:
     """property id -> list of {key, what}; 'fixed:' lines are informational only (they suppress nothing)"""
     out: Dict[str, List[Dict[str, str]]] = {}
@@ -130,6 +140,13 @@ class Check:
         known_hit = []
         for o in self.obls:
             if o.status == "violation":
+                if o.key not in known_keys:
+                    # a failing lookup x[k] is named KeyError, IndexError or IndexError|KeyError depending on how much is known about the type of x:
+                    # the finding is the site, so a listed lookup finding matches whichever of the three names this run inferred
+                    for alt in _lookup_aliases(o.key):
+                        if alt in known_keys:
+                            known_keys[o.key] = known_keys[alt]
+                            break
                 if o.key in known_keys:
                     o.status = "known-finding"
                     known_hit.append(o)
